@@ -41,6 +41,8 @@ def proc_role(t):
 def proc_brole(fn, bb, o):
     o = o.strip()
     if o.k == "var" and o.a.get("name"):
+        if fn.local_ty(o.a["local"]) == "bool" and C.bool_flag_with_both_constants(fn, o.a["local"]):
+            return "flag:have_pending_command"          # canonical role name of the only set-once flag of the loop
         return "flag:" + o.a["name"]
     if o.k == "field":
         return "opt:" + o.a
@@ -449,7 +451,7 @@ def run(ctx):
                            "process_input deviates from the reference flush-and-retry loop for atoms %s:\n  code:      %s\n  reference: %s" % ({k: v for k, v in a.items()}, tr, want), fn=f, how="event-graph simulation")
                 ctx.ob("R5", "truth-table", not bad_rows, "%d of %d atom assignments deviate from the reference loop" % (len(bad_rows), n_rows), fn=f, how="event-graph simulation over %d assignments" % n_rows)
         # have_pending_command: set true on every path from an accepted argument to the next read; never reset
-        hp = f.locals_named("have_pending_command")
+        hp = C.find_local(f, "have_pending_command", ty="bool", pred=C.bool_flag_with_both_constants)
         if not hp:
             ctx.missing("R5", "have_pending_command flag")
         else:
